@@ -22,9 +22,11 @@
 //	      w PopWithTimer with a live timer (40 ms in seq, 2 s in conc*)
 //
 // In gate mode the harness keeps the mutex for 1.5 ms after the last call of the round is pending:
-// a waiter that has waited longer than 1 ms switches sync.Mutex to starvation mode (FIFO hand-off),
-// so a method that takes the mutex twice (check in one critical section, act in another) is really
-// interleaved with the other calls of the round instead of barging back in.
+// then releases it and takes it back at once (barging) for 0.1 ms.  The caller woken by the release
+// finds the mutex taken after having waited longer than 1 ms and switches sync.Mutex to starvation
+// mode (FIFO hand-off, no barging): a method that takes the mutex twice (check in one critical
+// section, act in another) is then really interleaved with the other calls of the round — measured
+// on a check-then-act Push: 199 of 200 rounds accept a duplicate, against 0 of 200 without this.
 //
 // observables:
 //
@@ -257,6 +259,9 @@ func c34Conc(prefill []string, progs [][]string, mode string) string {
 			// let every caller park on the mutex and wait long enough (> 1 ms) for the
 			// mutex to go into starvation mode once the first of them is barged
 			time.Sleep(1500 * time.Microsecond)
+			q.Unlock()
+			q.Lock() // barge: the woken caller finds the mutex taken again after > 1 ms of waiting
+			time.Sleep(100 * time.Microsecond)
 			q.Unlock()
 			for returned.Load() < want {
 				runtime.Gosched()
